@@ -126,3 +126,14 @@ pub fn ip_from_bytes(fam: u128, b: &Tok) -> IpAddr {
         IpAddr::V6(Ipv6Addr::from(a))
     }
 }
+
+/// Socket descriptors open in this process right now (`/proc/self/fd` entries that link to `socket:[inode]`);
+/// `None` when /proc cannot be read. Callers compare against a baseline taken in the same process.
+pub fn open_socket_fds() -> Option<u128> {
+    let dir = std::fs::read_dir("/proc/self/fd").ok()?;
+    Some(
+        dir.filter_map(|e| e.ok())
+            .filter(|e| std::fs::read_link(e.path()).map(|l| l.to_string_lossy().starts_with("socket:")).unwrap_or(false))
+            .count() as u128,
+    )
+}
